@@ -80,6 +80,12 @@ def scenario_strategy() -> Any:
     @st.composite
     def fates(draw: Any, mode: str) -> dict:
         out: dict[str, Any] = {}
+        if mode == "dead":  # every transmission of one phase loses its echo and/or its far-end copies (a send that fails for good)
+            ph = draw(st.sampled_from(("offer", "accept", "confirm", "addenda")))
+            what = draw(st.sampled_from(("echo", "far", "both")))
+            for attempt in (1, 2, 3, 4):
+                out[f"{ph}:{attempt}"] = {"copies": [{"lose": what in ("far", "both"), "d": 0.0}], "echo": what == "far"}
+            return out
         for ph in ("offer", "accept", "confirm", "addenda"):
             for attempt in (1, 2, 3, 4):
                 if mode == "clean":
@@ -102,13 +108,13 @@ def scenario_strategy() -> Any:
     def scenario(draw: Any) -> dict:
         fi = draw(st.integers(0, len(FLOWS) - 1))
         flow = FLOWS[fi]
-        mode = draw(st.sampled_from(("clean", "dups", "dups", "delays", "delays", "faults", "faults", "faults")))
+        mode = draw(st.sampled_from(("clean", "dups", "dups", "delays", "delays", "faults", "faults", "faults", "dead")))
         third = []
-        for _ in range(draw(st.integers(0, 3)) if mode not in ("clean", "delays") else 0):
+        for _ in range(draw(st.integers(0, 3)) if mode not in ("clean", "delays", "dead") else 0):
             third.append({"t": draw(st.sampled_from((0.05, 0.3, 0.6, 1.0, 2.0, 3.05, 4.0, 6.0))), "kind": draw(st.sampled_from(("offer", "orcon-offer", "accept", "confirm", "addenda")))})
         return {"flow": fi, "mode": mode, "fates": draw(fates(mode)), "third": third, "after_offer_only": True,
                 "start": {"resp": draw(st.sampled_from((0.0, 0.0, 0.5, 1.0, 4.9))), "supp": draw(st.sampled_from((0.0, 0.1, 1.0, 4.9, 5.2)))},
-                "ratify": bool(flow["ratify"]) and draw(st.booleans()), "retry": True}
+                "ratify": bool(flow["ratify"]) and (draw(st.booleans()) or mode == "dead"), "retry": True}
 
     return scenario
 
@@ -446,7 +452,7 @@ def run(ctx: Ctx, col: Collector) -> None:
         "is_binding is read 12 s after both tasks have ended (the state classes' own 5.1 s timers may still be pending when a task raises early)",
     ]
     ctx.parallel(explore, ctx.shards(ctx.n(4000, 120_000), per_shard_min=5), col)
-    ctx.floors = [("mode:dups", "scn", 0.15), ("mode:faults", "scn", 0.25), ("mode:delays", "scn", 0.15), ("third-party", "scn", 0.2)]
+    ctx.floors = [("mode:dups", "scn", 0.12), ("mode:faults", "scn", 0.2), ("mode:delays", "scn", 0.12), ("mode:dead", "scn", 0.02), ("third-party", "scn", 0.15)]
 
 
 def replay(case: dict) -> list[tuple[dict, str]]:
